@@ -235,12 +235,18 @@ def generate(rng, tier):
         if rng.random() < 0.1:
             p2 = p2 + [F(1)]
         cases.append(dict(kind="region", p1=[S(x) for x in p1], p2=[S(x) for x in p2]))
-    for k in range(nm):
+    for k in range(nm + nm // 2):
         exact = k % 2 == 0
         m = gen_mesh_exact(rng) if exact else gen_mesh_scale(rng)
+        m["n_type"] = rng.choice(N_TYPES)
+        if k >= nm:
+            # derived meshes: lattice after in-place operations on a mesh whose cached quantities were used
+            m = derive_mesh(rng, gen_mesh_exact(rng))
+            if m is None:
+                continue
         for cls, i in gen_indices(rng, m):
             cases.append(dict(kind="i2p", mesh=m, cls=cls, i=i))
-        for cls, p in (probes_exact(rng, m) if exact else probes_scale(rng, m)):
+        for cls, p in (probes_exact(rng, m) if m["exact"] else probes_scale(rng, m)):
             cases.append(dict(kind="p2i", mesh=m, cls=cls, p=p))
         if rng.random() < 0.15:
             cases.append(dict(kind="p2i", mesh=m, cls="wrong-length", p=[S(0)] * (len(m["n"]) + 1)))
@@ -254,12 +260,83 @@ def generate(rng, tier):
 
 
 # ------------------------------------------------------------------ implementation
+N_TYPES = ["list", "tuple", "int64", "int32", "uint64", "uint8", "npscalars"]
+
+
+def typed_n(n, kind):
+    if kind == "tuple":
+        return tuple(n)
+    if kind in ("int64", "int32", "uint64", "uint8"):
+        return np.array(n, dtype=kind)
+    if kind == "npscalars":
+        return [np.uint64(k) if i % 2 else np.int32(k) for i, k in enumerate(n)]
+    return list(n)
+
+
 def build(m):
-    p1, p2 = fls(m["p1"]), fls(m["p2"])
+    """the mesh of a case.  `m["pre"]` (derived meshes): the mesh is first built from m["pre"]["p1"/"p2"/"n"],
+    its cached quantities are touched, then the listed public in-place operations are applied; the lattice the
+    case talks about (m["p1"], m["p2"], m["n"]) is the one the mesh reports AFTERWARDS."""
+    src = m.get("pre") or m
+    p1, p2 = fls(src["p1"]), fls(src["p2"])
     if m.get("int_corners"):
         p1, p2 = [int(x) for x in p1], [int(x) for x in p2]
     region = df.Region(p1=p1, p2=p2, tolerance_factor=fl(m["tf"]))
-    return df.Mesh(region=region, n=m["n"])
+    mesh = df.Mesh(region=region, n=typed_n(src["n"], m.get("n_type", "list")))
+    if m.get("pre"):
+        _ = mesh.cell, mesh.dV, len(mesh)
+        mesh.index2point((0,) * len(src["n"]))
+        mesh.point2index(mesh.region.center)
+        for op in m["pre"]["ops"]:
+            apply_op(mesh, op)
+    return mesh
+
+
+def apply_op(mesh, op):
+    kind = op[0]
+    dims = mesh.region.dims
+    if kind == "mesh.rotate90":
+        mesh.rotate90(dims[op[1]], dims[op[2]], k=op[3], inplace=True)
+    elif kind == "mesh.scale":
+        mesh.scale([fl(x) for x in op[1]], inplace=True)
+    elif kind == "region.scale":
+        mesh.region.scale([fl(x) for x in op[1]], inplace=True)
+    elif kind == "mesh.translate":
+        mesh.translate([fl(x) for x in op[1]], inplace=True)
+    else:
+        raise ValueError(kind)
+
+
+def derive_mesh(rng, m):
+    """turn a freshly generated mesh description into a 'derived' one: apply in-place operations on the
+    implementation and read the resulting lattice back (its exact float corners and counts)."""
+    nd = len(m["n"])
+    ops = []
+    for _ in range(rng.randint(1, 2)):
+        kind = rng.choice(["mesh.rotate90", "mesh.scale", "region.scale", "mesh.translate"] if nd > 1
+                          else ["mesh.scale", "region.scale", "mesh.translate"])
+        if kind == "mesh.rotate90":
+            a, b = rng.sample(range(nd), 2)
+            ops.append([kind, a, b, rng.choice([1, 3, -1, 5, 2])])
+        elif kind in ("mesh.scale", "region.scale"):
+            ops.append([kind, [S(rng.choice([F(2), F(-1), F(1, 2), F(-2), F(-1, 2), F(1)])) for _ in range(nd)]])
+        else:
+            ops.append([kind, [S(F(rng.randint(-40, 40), 4)) for _ in range(nd)]])
+    d = dict(m)
+    d["pre"] = dict(p1=m["p1"], p2=m["p2"], n=m["n"], ops=ops)
+    d["int_corners"] = False
+    st, mesh = attempt(lambda: build(d))
+    if st != "ok":
+        return None
+    d["p1"] = [S(x) for x in mesh.region.pmin.tolist()]
+    d["p2"] = [S(x) for x in mesh.region.pmax.tolist()]
+    d["n"] = [int(k) for k in mesh.n]
+    # Region.rotate90 evaluates cos/sin in floating point: corners carry a 1e-16 residue afterwards
+    if any(op[0] == "mesh.rotate90" for op in ops):
+        d["exact"] = False
+    if any(F(a) == F(b) for a, b in zip(d["p1"], d["p2"])):
+        return None
+    return d
 
 
 def mesh_coq(m):
@@ -338,6 +415,10 @@ def run_case(c):
     m = c["mesh"]
     exact = m["exact"]
     mesh = build(m)
+    if not np.all(mesh.region.pmin < mesh.region.pmax):
+        rec["oracle"].append("region-invariant")
+    if not np.allclose(mesh.cell * mesh.n, mesh.region.pmax - mesh.region.pmin, rtol=1e-9, atol=0):
+        rec["oracle"].append("cell-times-n")
     lo, hi, cell = mesh_geom(m)
     n = m["n"]
     sc = scale_of(m)
@@ -377,6 +458,8 @@ def run_case(c):
         if st == "ok":
             obs = dict(idx=js(idx), isin=obs_in)
             coq_obs = f"(Some {g.zl(obs['idx'])})"
+            if not all(isinstance(a, (int, np.integer)) and not isinstance(a, bool) for a in idx):
+                rec["oracle"].append("index-not-integer")
             if not (len(idx) == len(n) and all(0 <= a < k for a, k in zip(idx, n))):
                 rec["oracle"].append("index-out-of-range")
             elif len(pq) == len(n):
